@@ -5,7 +5,7 @@ from .common import Result, quiet
 
 ALG_O = ["ico", "cube3D", "randomS"]
 ALG_B = ["cube4D", "randomQ"]
-T_TEXTS = {1: "[0.25]", 2: "[0.1, 0.35]", 3: "[0.3, 0.1, 0.2]", 4: "linspace(0.1, 0.7, 4)"}
+T_TEXTS = {1: "[0.25]", 2: "[0.1, 0.35]", 3: "[0.3, 0.1, 0.2]", 4: "linspace(0.1, 0.7, 4)", 5: "linspace(0.7, 0.1, 4)", 6: "range(3, 1, -1)"}
 
 
 def evaluate(case):
@@ -24,7 +24,13 @@ def evaluate(case):
     if np.isnan(arr).any():
         return "row left NaN"
     import ast
-    nm = np.sort(np.array(ast.literal_eval(t) if "linspace" not in t else np.linspace(0.1, 0.7, 4), dtype=float).ravel())
+    if "linspace" in t:
+        vals = np.linspace(0.1, 0.7, 4)
+    elif "range" in t:
+        vals = np.array([3.0, 2.0])
+    else:
+        vals = ast.literal_eval(t)
+    nm = np.sort(np.array(vals, dtype=float).ravel())
     if not np.allclose(radii, 10 * nm, rtol=1e-12):
         return "radii are not 10 x the nanometre input"
     for r in range(n):
@@ -47,6 +53,8 @@ def evaluate(case):
         return "decomposition: rotation grid not recovered in original order"
     if not (t2.shape == radii.shape and np.allclose(t2, radii, atol=1e-6)):
         return "decomposition: radii not recovered ascending"
+    if np.any(np.diff(radii) <= 0):
+        return "radii of the grid are not ascending"
     return None
 
 
@@ -54,7 +62,7 @@ def cases(tier):
     ns_b = [1, 2, 5, 8] if tier == "quick" else [1, 2, 3, 4, 5, 8, 13, 17]
     ns_o = [1, 3, 7, 12] if tier == "quick" else [1, 2, 3, 4, 7, 12, 20, 33]
     out = []
-    for i, (nb, no, nt) in enumerate(itertools.product(ns_b, ns_o, [1, 2, 3, 4])):
+    for i, (nb, no, nt) in enumerate(itertools.product(ns_b, ns_o, [1, 2, 3, 4, 5, 6])):
         ab, ao = ALG_B[i % 2], ALG_O[i % 3]
         b = str(nb) if i % 4 == 0 else f"{ab}_{nb}"
         o = str(no) if i % 5 == 0 else f"{ao}_{no}"
